@@ -124,6 +124,7 @@ pub fn decode_plan(c: &mut Cur) -> Plan {
         header_order: (0..c.pick(4)).map(|_| c.u16()).collect(),
         path_noise: if c.pick(4) == 0 { c.u8() } else { 0 },
         version: [11u8, 10, 2, 3, 9][c.pick(5)],
+        plus_literal: false,
     };
     let style = TsStyle {
         extended: c.bool(),
